@@ -15,18 +15,19 @@ from pbt.engine import Check, Violation, R, B, is_exc
 ATOMS = ["x", "y", "z1", "2", "0", "10", "3.5", "1e3", ".5", "2x", "3.5y", "pi", "E", "I", "oo", "nan", "True",
          "False", "zoo", "\xfc", "1e999", "007"]
 # names of the function tables of parser.cpp:functionify / init_parser_single_arg_functions (lines 43-196)
-FUN_PARSE = ["sin", "cos", "atan", "arcsin", "sqrt", "abs", "exp", "log", "ln", "gamma", "erf", "floor", "zeta",
+FUN_PARSE = ["sin", "cos", "atan", "arcsin", "sqrt", "abs", "exp", "log", "ln", "gamma", "erf", "zeta",
              "pow", "beta", "atan2", "polygamma", "kronecker_delta", "max", "min", "levi_civita", "Eq", "Ne", "Ge",
              "Lt", "f", "g"]
 FUN_BOOL = ["And", "Or", "Not", "Xor", "Nand", "Xnor"]
 # sbml_parser.cpp:functionify (lines 190-330)
-FUN_SBML = ["sin", "arccosh", "sqr", "ln", "log10", "ceil", "factorial", "minus", "divide", "power", "root", "log",
+FUN_SBML = ["sin", "arccosh", "sqr", "ln", "log10", "factorial", "minus", "divide", "power", "root", "log",
             "max", "min", "plus", "times", "eq", "neq", "geq", "gt", "leq", "lt", "f", "g"]
 FUN_SBML_BOOL = ["and", "or", "xor", "not", "piecewise"]
 
 
-def expr_text(sbml, logic):
-    """random source text; `logic` False leaves out the logical operators / boolean-argument functions"""
+def expr_text(sbml, logic, rounding=True):
+    """random source text; `logic` False leaves out the logical operators / boolean-argument functions, `rounding` False
+    the functions that round a double to an integer (floor, ceiling; by-construction exclusions of known findings)"""
     ops = ["+", "-", "*", "/", "**", "^", "<", ">", "<=", ">=", "==", "!=", " + ", "*-"]
     if sbml:
         ops += ["%"]
@@ -35,6 +36,8 @@ def expr_text(sbml, logic):
     elif logic:
         ops += ["|", "&"]
     names = (FUN_SBML + (FUN_SBML_BOOL if logic else [])) if sbml else (FUN_PARSE + (FUN_BOOL if logic else []))
+    if rounding:
+        names = names + (["floor", "ceil"] if sbml else ["floor", "ceiling", "primepi"])
     atoms = ATOMS + (["time", "avogadro", "true", "false", "infinity"] if sbml else [])
 
     def ext(ch):
@@ -79,12 +82,14 @@ class C18Seq(Check):
             "Non-trivial: history with >= 1 failing and >= 1 succeeding non-atom parse; distinct by (kind, strings).")
     assumptions = ["a std::exception of any class is a legitimate outcome of a parse",
                    "driver crash (ASan/UBSan/abort) is a violation (reported by the engine)"]
-    tiers = {"quick": {"examples": 1600}, "thorough": {"examples": 60000}}
+    tiers = {"quick": {"examples": 800}, "thorough": {"examples": 40000}}
 
     def strategy(self, tier):
+        rounding = not self.tag_active("floor_nonfinite_double")
+
         def hist(sbml):
             logic = not self.tag_active("sbml_logic_nonboolean" if sbml else "parse_logic_op_nonboolean")
-            item = damaged(expr_text(sbml, logic))
+            item = damaged(expr_text(sbml, logic, rounding))
             if not logic:
                 bad = set("|&!~") if sbml else set("|&~")
                 words = ("not", "and", "or", "piecewise") if sbml else ()
@@ -109,6 +114,11 @@ class C18Seq(Check):
                 if (set("|&!~") & set(t)) or (not sb and not cx and "^" in t) or \
                         (sb and any(w in s.lower() for w in ("not", "and", "or", "piecewise"))):
                     self.skip("known:" + ("sbml_logic_nonboolean" if sb else "parse_logic_op_nonboolean"))
+                    return
+        if self.tag_active("floor_nonfinite_double"):
+            for s, cx in case["items"]:
+                if any(w in s.lower() for w in ("floor", "ceil", "primepi", "primorial")):
+                    self.skip("known:floor_nonfinite_double")
                     return
         stmts = [["sbml_parser_new"] if sb else ["parser_new"]]
         idx = []
@@ -169,8 +179,8 @@ SPEC = {
     "assumptions": ["timeouts (-timeout=10), out-of-memory and allocation-size aborts (GMP / ASan refusing a huge block) are "
                     "resource noise, counted, never reported",
                     "libFuzzer campaigns are only approximately reproducible; the saved artifact is the reproducible unit"],
-    "tiers": {"quick": {"workers": 8, "runs": 14000, "empty_workers": 1, "empty_runs": 14000, "max_len": 128},
-              "thorough": {"workers": 16, "runs": 450000, "empty_workers": 2, "empty_runs": 450000, "max_len": 256}},
+    "tiers": {"quick": {"workers": 8, "runs": 12000, "empty_workers": 1, "empty_runs": 12000, "max_len": 128},
+              "thorough": {"workers": 16, "runs": 250000, "empty_workers": 2, "empty_runs": 250000, "max_len": 256}},
     "hy_check": C18Seq,
 }
 
